@@ -246,6 +246,9 @@ def observations(r):
         h = r["hang"]
         obs.append((hang_key(h), "goroutines never returned (%s); ConnectionsNumber() %s; blocked at: %s" % (
             ", ".join(h["stuck_roles"]), h["ConnectionsNumber"], " | ".join(h["stacks"]))))
+    for x in r.get("early", []):
+        obs.append(("C13:timeout-before-deadline", "caller %d (timeout %d ms) took the timeout branch %d ms before the timeout had elapsed" % (
+            x["w"], x["timeout_ms"], x["early_by_ms"])))
     for l in r.get("late", []):
         obs.append((late_key(l), "caller %d (timeout %d ms) was still in its select %d ms after entering it, %d stale head(s) received" % (
             l["w"], l["timeout_ms"], l["in_select_ms"], l["stale_heads_received"])))
@@ -357,7 +360,7 @@ def trace_key(rj):
             stalled = gaps(c["sel"], t)
             if t - c["sel"] - stalled <= c["tmo"] + SLACK_MS:
                 k = "C13:wait-outlives-deadline"       # explained by the stall alone
-            elif c["stale"] > 0 and t - c["last"] - gaps(c["last"], t) <= c["tmo"] + SLACK_MS:
+            elif c["stale"] > 0 and t - c["last"] - gaps(c["last"], t) <= c["tmo"] + 50:
                 k = "C13:timer-rearmed-by-stale-head"  # late for the original deadline, on time for the re-armed timer
             else:
                 k = "C13:wait-outlives-deadline"
